@@ -283,6 +283,8 @@ def drive_b(rec, ks, quick):
         cc = [M, -M, M, -M, M, -M, M - 1, -M + 1, M, -M, M, -M, half, -half - 1, rng.randrange(-M, M + 1), rng.choice([M, -M])]
         x = np.concatenate([x, np.array(cx, dtype=np.int64)])
         cin = np.concatenate([cin, np.array(cc, dtype=np.int64)])
+        cut = rng.choice([0, 1, 2, 3, 5, 6, 7, 9, 11, 13, 17, 21])      # the primitive takes any length: not only multiples of 4 or 8
+        x, cin = x[cut:], cin[cut:]                                      # (from the front: the corner pairs at the end stay)
         m = len(x)
         for has_out, has_cin, has_cout in [(1, 1, 1), (1, 1, 0), (1, 0, 1), (1, 0, 0), (0, 1, 1), (0, 0, 1)]:
             xb, cb, ob, co = Buf(8 * m), Buf(8 * m), Buf(8 * m, fill=0xEE), Buf(8 * m, fill=0xEE)
